@@ -80,7 +80,7 @@ def _analyses():
         "C01": (
             [a3.vjp, a3.helpers, a3.einsum_sublist_target, vjp_reduce, vjp_batch, vjp_rank, vjp_fold, a3.restored_rank, km.squeeze_axes, a16_perm.permutations_rule, a16_perm.norm_rolls, a17_labels.contraction_adjoints, vjp_axis, vjp_none, vjp_order, a2.catchall, a2.forwarded_defaults, vjp_drop, vjp_ignored, a2.variadic, a2.argnums_rules, a2.positional_selection, a1.arity, ka.option_domains, ka.option_dispatch_distinct, a5_factor.agree, vjp_alias, a5_linear.closures_linear, a5_linear.linear_args_unread, ka.arraybox_table, kc.inplace_sites],
             "Reverse-mode exactness is numerical; decided here are the configuration-dependent plumbing clauses every exact rule needs: "
-            "broadcast discipline of VJPs (A3.vjp), batch members of stacked-matrix functions kept apart (A3.batch), shapes paired from the right or under an established equal rank (A3.rank), per-axis quantities combined over all given axes (A3.fold), the cotangent of rank-changing functions (cumsum of a 0-d operand, axis=None of cumsum / repeat / sort / partition) reshaped to the operand's shape (A3.restore), negative-axis hazards (A7), axis=None of the flattening functions never replaced by an explicit axis (A7.none), layout-relative `order` values never forwarded to the cotangent (A7.order), keyword/positional binding behind catch-alls (A2.catchall), equal names and defaults where (*args, **kwargs) are forwarded to another NumPy function (A2.fwd), no option handed on incompletely (A2.drop) or accepted and never read (A2.ignored), "
+            "broadcast discipline of VJPs (A3.vjp), batch members of stacked-matrix functions kept apart (A3.batch), shapes paired from the right or under an established equal rank (A3.rank), per-axis quantities combined over all given axes (A3.fold), the cotangent of rank-changing functions (cumsum of a 0-d operand, axis=None of cumsum / repeat / sort / partition, the flattened arguments of outer, a vector operand of triu / tril, the diagonal of a non-square matrix) brought to the operand's shape (A3.restore), negative-axis hazards (A7), axis=None of the flattening functions never replaced by an explicit axis (A7.none), layout-relative `order` values never forwarded to the cotangent (A7.order), keyword/positional binding behind catch-alls (A2.catchall), equal names and defaults where (*args, **kwargs) are forwarded to another NumPy function (A2.fwd), no option handed on incompletely (A2.drop) or accepted and never read (A2.ignored), "
             "variadic offsets (A2.variadic), whole-argnums rules map element-wise (A2.argnums), slots of variadic primitives addressed by position, never by operand identity (A2.position), arity (A1.arity), closed option domains (A6.enum), VJP/JVP factor agreement of elementwise rules (A5), equal rules for two names of one NumPy function (A5.alias), linearity of every rule closure in its cotangent (A5.lin: a VJP is a linear map; helper primitives it calls must be known to be linear in that operand) "
             "and the operator/method call forms (A14); no rule writes in place to its cotangent, its arguments or the answer (A9.inplace: every other rule that reads the same array would see the changed values). Each is a necessary condition: breaking one makes some call configuration silently wrong.",
         ),
@@ -102,7 +102,7 @@ def _analyses():
         ),
         "C05": (
             [a3.vjp, a3.helpers, a3.einsum_sublist_target, vjp_reduce, vjp_rank, a3.restored_rank, km.squeeze_axes, a4.match, kc.zero_paths, a1.types, a2.layout, a4_dtype.dtype_comparisons, a4_dtype.cotangent_template, vjp_axis],
-            "A gradient lives in its argument's space: shape support under broadcasting (A3.vjp), shapes of two arrays paired entry by entry only under an established equal rank (A3.rank), the result reshaped to the operand's shape on every path where the function's result does not keep the operand's rank (A3.restore), no axis arithmetic that changes meaning for a negative axis (A7: such a slip cuts the cotangent along the wrong axis), real/complex kind for every kind assignment of the arguments (A4.match, exhaustive 2^n), "
+            "A gradient lives in its argument's space: shape support under broadcasting (A3.vjp), shapes of two arrays paired entry by entry only under an established equal rank (A3.rank), the result brought to the operand's shape on every path where the function's result does not keep the operand's rank (A3.restore: cumsum / sort / partition / repeat, outer, triu / tril, diag), no axis arithmetic that changes meaning for a negative axis (A7: such a slip cuts the cotangent along the wrong axis), real/complex kind for every kind assignment of the arguments (A4.match, exhaustive 2^n), "
             "kind decisions never made by dtype == <Python scalar type> (A4.dtypecmp), the shape/dtype template of a rebuilt cotangent taken from the differentiated argument (A4.template), zeros of the argument's / output's space on independent paths (A13.zero), one Box and one VSpace per differentiable type (A1.types), container layout (A2.layout).",
         ),
         "C06": (
